@@ -12,8 +12,13 @@ def make_scenarios(ctx, n):
             ctx.rng.choice(["none", "one", "one", "two", "one+interrupted", "one+headless"])
         t1, _ = gen.mutate_tree(ctx.rng, t0)
         t2, _ = gen.mutate_tree(ctx.rng, t1)
-        out.append({"id": f"K{i}", "prior": prior, "t0": t0, "t1": t1, "t2": t2,
-                    "o": [scen.small_opts(ctx.rng) for _ in range(4)]})
+        o = [scen.small_opts(ctx.rng) for _ in range(4)]
+        if i == 1:
+            # path order vs byte order: unchanged tree with root-level names above deeper paths, small hunks
+            t0 = t1 = t2 = scen.order_trap_tree()
+            prior = "one"
+            o = [dict(x, meph=m) for x, m in zip(o, (3, 2, 2, 2))]
+        out.append({"id": f"K{i}", "prior": prior, "t0": t0, "t1": t1, "t2": t2, "o": o})
     return out
 
 
